@@ -106,6 +106,7 @@ func (w *World) clearedBefore(fam *Family, obj string, paths [][]string, at ssa.
 }
 
 func runC18(w *World, r *Report) {
+	defer c18StoredRecord(w, r)
 	r.Rule("C18-R1", "no secret-bearing value reaches a log sink", "zap.Any/Reflect/Object/Inline/Stringer, fmt formatting and json.Marshal-to-log of a value whose static type contains MilvusConnectParam.{Password,Token} or KafkaSASL.Password requires dominating stores of \"\" to every such path of that object", 1)
 	r.Rule("C18-R2", "responses", "request.Task literals are built only in request.GetTask from an object whose secret paths were all cleared; no other *Response type contains a secret path", 3)
 	r.Rule("C18-R3", "sanitiser completeness", "GetRequestInfo has a sanitising branch for every request model type containing a secret path and clears each of its secret paths before marshalling", 3)
@@ -620,4 +621,82 @@ func carriesRawPayload(n *types.Named) bool {
 		}
 	}
 	return false
+}
+
+// c18StoredRecord (C18-R5): the serialised task record (the JSON kept in the meta store, credentials included) is only
+// decoded; it is never formatted into an error text or a log field. An error built from it travels to the log of the
+// store, of store.GetTaskInfo, of ReloadTask, and to the API client through get / list.
+func c18StoredRecord(w *World, r *Report) {
+	r.Rule("C18-R5", "the stored task record is never put into a message", "in the Get methods of TaskInfoEtcdStore / TaskInfoMysqlStore the value handed to json.Unmarshal for a *meta.TaskInfo flows into no errors / fmt / zap / log call (directly or through util.ToString / string conversion)", 2)
+	n := 0
+	for _, typ := range []string{"TaskInfoEtcdStore", "TaskInfoMysqlStore"} {
+		fn := w.Func(pkgStore, typ, "Get")
+		if fn == nil {
+			r.Undecided("C18-R5", "(*"+typ+").Get", 0, "anchor not found")
+			continue
+		}
+		conv := func(c *ssa.CallCommon) []ssa.Value {
+			switch callSym(c).name {
+			case "ToString", "ToBytes", "String", "Sprintf", "Sprint", "Wrapf", "Wrap", "WithMessage", "WithMessagef", "Newf", "Errorf":
+				return callArgs(c)
+			}
+			return nil
+		}
+		for _, g := range familyOf(fn).Funcs {
+			roots := map[ssa.Value]bool{}
+			eachInstr(g, func(in ssa.Instruction) {
+				c, ok := in.(*ssa.Call)
+				if !ok || callSym(c.Common()).name != "Unmarshal" || !strings.HasSuffix(callSym(c.Common()).pkg, "json") || len(c.Call.Args) < 2 {
+					return
+				}
+				target := c.Call.Args[1]
+				if mi, isMI := target.(*ssa.MakeInterface); isMI {
+					target = mi.X
+				}
+				if !strings.Contains(target.Type().String(), "TaskInfo") {
+					return
+				}
+				for _, x := range backSlice(c.Call.Args[0], SliceOpts{MaxDepth: 5, ThroughArg: conv}) {
+					if _, isC := x.(*ssa.Const); !isC {
+						roots[x] = true
+					}
+				}
+			})
+			if len(roots) == 0 {
+				continue
+			}
+			n++
+			var bad ssa.Instruction
+			eachInstr(g, func(in ssa.Instruction) {
+				c, ok := in.(*ssa.Call)
+				if !ok {
+					return
+				}
+				s := callSym(c.Common())
+				if !(strings.HasSuffix(s.pkg, "errors") || s.pkg == "fmt" || strings.Contains(s.pkg, "zap") || strings.HasSuffix(s.pkg, "/log")) {
+					return
+				}
+				for _, a := range callArgs(c.Common()) {
+					for _, x := range backSlice(a, SliceOpts{MaxDepth: 6, ThroughArg: conv}) {
+						if roots[x] {
+							if _, isErr := x.(*ssa.Call); isErr {
+								continue
+							}
+							bad = c
+						}
+					}
+				}
+			})
+			pos := g.Pos()
+			detail := ""
+			if bad != nil {
+				pos = bad.Pos()
+				detail = "the serialised task record (it contains the Milvus password / token and the Kafka SASL password) is formatted into an error or log message: one record that no longer decodes puts the stored credentials into the log and into the error that get / list return to the client"
+			}
+			r.Check(bad == nil, "C18-R5", fmt.Sprintf("(*%s).Get | stored record only decoded", typ), pos, "the record reaches json.Unmarshal only", detail)
+		}
+	}
+	if n == 0 {
+		r.Undecided("C18-R5", "task info stores", 0, "no json.Unmarshal into a TaskInfo found in the store Get methods")
+	}
 }
